@@ -50,7 +50,8 @@ REGISTRY = {
               'Decides the structural part: generated and inherited layer ids are disjoint, every stage fills null ids '
               'from its parent stage, sentinel -1 handled consistently by counters and table builder, cluster labels are '
               'written to exactly the rows fed to the clustering, no stage modifies or drops hits, every path through the '
-              'per-group loop of find_layers rewrites ncomp (repeated calls). That scikit-learn '
+              'per-group loop of find_layers rewrites ncomp (repeated calls), and the sub-layer ids of a group are written exactly '
+              'when its stored count exceeds one. That scikit-learn '
               'returns one label per row and that mixture components are populated is not claimed.',
               'One label per fed row from scikit-learn (A1).'),
     'C06': _o('provenance of the heights handed to calc_base_height (must derive from the time-sorted data), sibling '
@@ -58,7 +59,8 @@ REGISTRY = {
               'Necessary conditions of the separation guarantee: the bases that enter merge / re-merge decisions are '
               'computed by the same routine, on time-ordered heights, with the same exclusion logic and parameters as '
               'the bases finally reported; merging uses strict "<" in both siblings; the separation bin lookup is '
-              'guarded. The numerical separation itself is not claimed.', ''),
+              'guarded; the merge is on every path to the completion of find_groups; every base-height site orders the hits by '
+              'the same sort call; the look-up routine is found by what it does. The numerical separation itself is not claimed.', ''),
     'C07': _o('predicate normalisation of the two cropping selections (disjoint cover of height > MSA + buffer, strict), '
               'effect extraction from the functional update chain, index typestate',
               'Nothing above the limit survives into the chunk and everything else is untouched: the selections partition '
@@ -82,7 +84,8 @@ REGISTRY = {
               'Reproducibility can only break through a finite list of constructs: an estimator without fixed seed, a '
               'draw from / re-seed of the global generator, hash-ordered iteration, clock/pid values, state kept between '
               'runs. Each is excluded package-wide or on the processing path; tmp_seed restores the saved state in a '
-              'finally block enclosing the yield.', 'Bitwise determinism inside the numerical libraries (A4).'),
+              'finally block enclosing the yield (or registers the restoration on an ExitStack enclosing it); no uninitialised '
+              'buffer (np.empty) is allocated on the processing path.', 'Bitwise determinism inside the numerical libraries (A4).'),
     'C10': _o('index typestate (USER / UNIQUE / RANGE) along the derivation chain of the chunk data, scan for positional '
               'column access before normalisation, coercion table',
               'The private copy gets a fresh RangeIndex before any label-based row operation and no method de-normalises '
@@ -91,7 +94,8 @@ REGISTRY = {
     'C11': _o('inter-procedural mutation / ownership summaries (deep vs shallow copies, return aliases) over the whole '
               'package', 'No public entry point writes through an argument it borrowed, the global parameter dictionary '
               'has exactly two writers, nothing writes through the snapshot after construction, and the chunk fields are '
-              'assigned objects it owns outright (deep copies).', 'Frames derived by pandas operations are new objects.'),
+              'assigned objects it owns outright (deep copies); nothing on the processing path reads the live dictionary '
+              '(later edits of the global parameters cannot reach an existing chunk).', 'Frames derived by pandas operations are new objects.'),
     'C12': _o('global-read census with alias substitution, guard analysis of the merge routine, fresh-object provenance '
               'of the defaults, YAML key agreement (minimal YAML reader), polarity analysis of the path tests that '
               'dominate the merge in set_prms (DNF of the guard), definite assignment / name resolution in the '
@@ -101,18 +105,20 @@ REGISTRY = {
               'stores on its unknown-key path, reset reads the packaged file afresh, no stale import-time binding exists, '
               'and every parameter path read from the snapshot exists in the packaged defaults; set_prms reaches the '
               'merge exactly through positive tests (is a Path, exists, is a file) made on the path after a str has '
-              'been converted, so the YAML route is open to every file the caller can name.', ''),
+              'been converted, so the YAML route is open to every file the caller can name; the user file and the packaged '
+              'defaults are read by the same loader; everything is reset only when no selection is given (identity test).', ''),
     'C13': _o('confinement analysis: module/class/closure/memo state and argument mutation summaries over every function '
               'reachable from the processing path',
               'If all working state is reachable only from the chunk instance and helpers are pure, no schedule can make '
               'chunks interfere; both premises are decided for every reachable function, which covers all interleavings '
-              'at once (no schedule is enumerated).', 'Thread-safety of third-party code on unshared objects (A4).'),
+              'at once (no schedule is enumerated); no function on the processing path flips an interpreter- or library-wide '
+              'switch (warning filters, NumPy / pandas / scikit-learn options, locale, environment, logger levels).', 'Thread-safety of third-party code on unshared objects (A4).'),
     'C14': _o('typestate analysis of the stage methods with callees inlined: ordered guarded events, presence guards, '
               'kill sets of later-stage facts, refusal-before-mutation',
               'Every dereference of a stage product is dominated by a presence guard raising AmpycloudError; a stage that '
               'overwrites a later stage\'s product refuses when it exists; no call-order refusal is reachable after a '
               'write to chunk state; each stage resets its own id column before reading it or the hit table as a whole. Holds for every call '
-              'sequence because it is a property of each method in every abstract state.',
+              'sequence because it is a property of each method in every abstract state. A stage writes the id column of its own level only and leaves it resettable.',
               'Equality of recomputed tables rests on determinism (C09).'),
     'C15': _o('census and classification of the refusal conditions of check_data_consistency (own condition of every '
               'raise), ordering of normalisation steps, trigger/repair agreement',
@@ -132,7 +138,8 @@ REGISTRY = {
         'text': 'The loop of icao.significant_cloud is turned into a finite transducer by abstract interpretation of its '
                 'body (scalars exact, append-only list abstracted by its count(True) observer); the product with the '
                 'specification transducer is explored exhaustively over okta 0..8 (0..9 thorough), which decides the rule '
-                'for every sequence of every length, where tests sample five sequences.',
+                'for every sequence of every length, where tests sample five sequences. Also decided: nothing but metarize writes the '
+                'published flags, and the decorator of significant_cloud passes its arguments through untouched.',
         'note': A + 'The model is extracted from the source on every run (no hand-written model), so there are no traces '
                     'to validate against the implementation. Okta values are integers.'},
     'C18': _o('decision-table extraction for okta2code; piecewise-affine abstract interpretation (floor/ceil/round aware) '
@@ -159,7 +166,8 @@ REGISTRY = {
               'No unscoped writer of matplotlib global configuration exists in the package and public figure-creating '
               'functions run inside plt.style.context; the figure is closed on every normal show=False path; files are '
               'written once per requested format only when a stem is given; plot code has no write effect on the chunk; '
-              'style cycles are indexed modulo their length; nothing kept between two plots is altered; no local is read '
+              'style cycles are indexed modulo their length; nothing kept between two plots is altered; string literals stored into '
+              'arrays of string literals fit their fixed width; no local is read '
               'unbound on a loop-free path. Totality of '
               'matplotlib is not claimed.', ''),
 }
